@@ -117,7 +117,8 @@ func cleanupPods(client client.Client, logger logr.Logger, status *datadoghqv1al
 		conditionStatus = corev1.ConditionFalse
 	}
 	if len(pods) != 0 {
-		conditions.UpdateExtendedDaemonSetReplicaSetStatusCondition(status, now, datadoghqv1alpha1.ConditionTypePodsCleanupDone, conditionStatus, "", "", false, false)
+		// a failed clean-up must be recorded even if no clean-up was recorded before (writeFalseIfNotExist)
+		conditions.UpdateExtendedDaemonSetReplicaSetStatusCondition(status, now, datadoghqv1alpha1.ConditionTypePodsCleanupDone, conditionStatus, "", "", true, false)
 	}
 
 	return utilserrors.NewAggregate(errs)
